@@ -107,6 +107,15 @@ func (g *SymbolGraph) RemoveEdge(from, to graphs.SymbolKey, kind *SymbolEdgeKind
 				}
 			}
 		}
+		// The dependency indices track 'from -> to' regardless of edge kind;
+		// they may only be dropped once no edge of any kind remains between the two nodes.
+		remainingSuffix := "::" + toBase
+		for k := range inner {
+			if strings.HasSuffix(k, remainingSuffix) {
+				return
+			}
+		}
+
 		if len(inner) == 0 {
 			delete(g.edges, fromBase)
 		}
